@@ -12,12 +12,14 @@ BadLoad    == {[i |-> i, laws |-> BrokenLoadLaws(Facts[i])] : i \in {j \in Of("l
 BadReject  == {i \in Of("reject") : ~RejectedAtLoad(Facts[i])}
 BadHidden  == {i \in Of("hidden") : ~Hidden(Facts[i])}
 BadSubset  == {i \in Of("subset") : ~Preserved(Facts[i])}
+BadHistory == {i \in Of("history") : ~OrderIndependent(Facts[i])}
+BadSave    == {i \in Of("save") : ~SaveOutcomeOK(Facts[i])}
 Secrets    == {i \in Of("hidden") : IsSecret(Facts[i])}
 UnknownClass == {i \in Of("load") : Facts[i].class \notin Classes[Facts[i].vkind]}
 
 ASSUME ndJsonSerialize(IOEnv.VERDICT_FILE,
     <<[n |-> Len(Facts), baddefault |-> BadDefault, badload |-> BadLoad, badreject |-> BadReject, badhidden |-> BadHidden,
-       badsubset |-> BadSubset, secrets |-> Secrets, unknownclass |-> UnknownClass]>>)
+       badsubset |-> BadSubset, badhistory |-> BadHistory, badsave |-> BadSave, secrets |-> Secrets, unknownclass |-> UnknownClass]>>)
 VARIABLE x
 Init == x = 0
 Next == UNCHANGED x
